@@ -1,4 +1,5 @@
 """C08 Reordering"""
+import ecanon
 import elin
 import eunits
 
@@ -18,5 +19,6 @@ def run(ctx):
     ctx.floor("E-UNITS", "function bodies analysed", nfn, 500)
     st = elin.run(ctx, F, crates=("oxidd_reorder",), skip_guard_table=True)
     ctx.floor("E-LIN", "oxidd-reorder bodies analysed", st["bodies"], 30)
+    ecanon.check_level_swap_order(ctx, F)
     ctx.not_decided = ("that functions are preserved, that the requested order is reached with minimal swaps, "
                        "non-overlap of concurrent swaps (runtime indices)")
